@@ -85,6 +85,68 @@ impl Monitor for Mon {
             }
             _ => {}
         }
+        // every change of a record must be explained by an input of THIS call (a payload that was
+        // discarded earlier, e.g. because its sender was Down or superseded, must never resurface later)
+        let mut explained: BTreeSet<u16> = BTreeSet::new();
+        match &rec.call {
+            Call::Data(b) => {
+                if let Ok(dg) = crate::wire::parse(b, self.codec) {
+                    explained.insert(dg.header.src.addr);
+                    for m in dg.members.iter().flatten() {
+                        explained.insert(m.id().addr);
+                    }
+                } else if let Some(c) = &d.class {
+                    if let Some(dg) = &c.dgram {
+                        explained.insert(dg.header.src.addr);
+                        for m in dg.members.iter().flatten() {
+                            explained.insert(m.id().addr);
+                        }
+                    }
+                }
+            }
+            Call::ApplyMany(ms, _) => {
+                for m in ms {
+                    explained.insert(m.id().addr);
+                }
+            }
+            Call::Timer(t) => match t {
+                Timer::ChangeSuspectToDown { member_id, .. } => {
+                    explained.insert(member_id.addr);
+                }
+                Timer::RemoveDown(x) => {
+                    explained.insert(x.addr);
+                }
+                Timer::ProbeRandomMember(_) => {
+                    if let Some(t) = &rec.before.snap.probe_target {
+                        explained.insert(t.id().addr);
+                    }
+                }
+                _ => {}
+            },
+            _ => {}
+        }
+        let mut changed: BTreeSet<u16> = BTreeSet::new();
+        for m in &rec.before.state {
+            if rec.after.record(m.id().addr) != Some(m) {
+                changed.insert(m.id().addr);
+            }
+        }
+        for m in &rec.after.state {
+            if rec.before.record(m.id().addr) != Some(m) {
+                changed.insert(m.id().addr);
+            }
+        }
+        for a in &changed {
+            ensure!(
+                explained.contains(a),
+                "C09:unexplained-record-change",
+                "the record for address {} changed from {:?} to {:?} in a {} call whose input never mentions that address (a payload discarded earlier resurfaced?)",
+                a,
+                rec.before.record(*a),
+                rec.after.record(*a),
+                rec.call.kind()
+            );
+        }
         let st = &rec.after.state;
         // one record per address
         let mut seen = BTreeSet::new();
